@@ -253,7 +253,7 @@ func (x *Exec) callSpec(s *State, fr *Frame, spec *FuncSpec, key string, args []
 	env := x.bindSpecParams(spec, args, sig)
 	sf := funcHome[spec]
 	pre := s.snapshot()
-	ctx := &EvalCtx{x: x, st: s, old: pre, env: env, sf: sf}
+	ctx := &EvalCtx{x: x, st: s, old: pre, env: env, sf: sf, atCall: true}
 	site := x.siteOrdinal(fr.fn, in)
 	callee := shortFn(key)
 	for ci, c := range spec.Requires {
@@ -280,18 +280,47 @@ func (x *Exec) callSpec(s *State, fr *Frame, spec *FuncSpec, key string, args []
 			s.assume(g)
 		}
 	}
-	// havoc
+	// havoc: evaluate every location in the pre-state first, then forget them
+	var locs []*Loc
 	for _, a := range spec.Assigns {
 		if a.All {
 			x.havocAllHeap(s)
 			continue
 		}
-		for _, l := range x.evalLocs(ctx, a.Expr) {
-			if l.Ref != nil {
-				x.frameCheck(s, fr, l.Ref, l.RootT, in.Pos(), in)
+		if a.Owner != nil {
+			t, err := x.w.ResolveType(sf, a.Owner)
+			if err != nil {
+				panic(specErr{fmt.Sprintf("%s: %v", spec.Pos, err)})
 			}
-			x.writeLoc(s, l, x.freshValue(s, l.Type(), "havoc"))
+			m := newModSet()
+			found := false
+			for i, f := range x.w.StructFields(t) {
+				if f.Name == a.Field {
+					m.addField(x.w, t, i)
+					found = true
+				}
+			}
+			if !found {
+				panic(specErr{fmt.Sprintf("%s: no field %s in %s", spec.Pos, a.Field, t)})
+			}
+			if len(x.spec.Frame) > 0 {
+				x.oblige(s, "frame", fmt.Sprintf("frame@%s#%s", shortFn(fnKey(fr.fn)), x.siteOrdinal(fr.fn, in)), TFalse, x.spec.Frame, in.Pos(), "callee assigns a field of every object of a type")
+			}
+			x.havocMods(s, fr, m, nil)
+			continue
 		}
+		for _, l := range x.evalLocs(ctx, a.Expr) {
+			if l.Cond != nil && l.Cond.IsFalse() {
+				continue
+			}
+			locs = append(locs, l)
+		}
+	}
+	for _, l := range locs {
+		if l.Ref != nil {
+			x.frameCheckCond(s, fr, l, in.Pos(), in)
+		}
+		x.writeLoc(s, l, x.freshValue(s, l.Type(), "havoc"))
 	}
 	// results
 	var rs []Value
@@ -304,7 +333,7 @@ func (x *Exec) callSpec(s *State, fr *Frame, spec *FuncSpec, key string, args []
 		var v Value
 		isFresh := false
 		for _, f := range spec.Fresh {
-			if f == name {
+			if f.Name == name && f.When == nil {
 				isFresh = true
 			}
 		}
@@ -335,6 +364,13 @@ func (x *Exec) callSpec(s *State, fr *Frame, spec *FuncSpec, key string, args []
 	}
 	if len(rs) == 1 {
 		env["result"] = rs[0]
+	}
+	for _, f := range spec.Fresh {
+		if f.When != nil {
+			if v, ok := env[f.Name]; ok && v.Term != nil {
+				s.assume(Implies(x.evalBool(ctx, f.When), Eq(v.Term, x.allocRef(s))))
+			}
+		}
 	}
 	for _, c := range spec.Ensures {
 		s.assume(x.evalBool(ctx, c.Expr))
